@@ -151,6 +151,23 @@ func runC15(c *run.Ctx) {
 			c.Count("generated_schema_not_accepted(left_to_C13)", 1)
 			continue
 		}
+		if i%3 == 0 {
+			// "a schema the root accepts" is also what is left after the root REFUSED something: a document that is turned down
+			// after its types were put in (an interface breach, an undefined reference, a duplicate at its end), whose type
+			// names sort in front of the accepted ones. What is printed next is the accepted schema, nothing of this one.
+			bads := []string{
+				"interface AaNamed { name: String }\n\ntype AaLabel implements AaNamed { z: Int }\n\ntype AaAlbum { a: Int }\n\nscalar AaS\n\nenum AaE { X }",
+				"type AaAlbum { a: Int label: AaNopeZz }\n\ninput AaIn { a: Int }\n\nunion AaU = AaAlbum",
+				"type AaAlbum { a: Int }\n\nenum AaE { X }\n\ndirective @aaDir on FIELD\n\ntype AaAlbum { b: Int }",
+			}
+			bad := bads[r.Intn(len(bads))]
+			var berr error
+			if pv, _ := run.Protect(func() { berr = a.ParseString(bad) }); pv != nil || berr == nil {
+				c.Count("ill_formed_later_load_not_refused(left_to_C13)", 1)
+				continue
+			}
+			c.Count("schemas_printed_after_a_refused_load", 1)
+		}
 		want := extract.Canon(ms, extract.CanonOpts{})
 		ca, err := canonOf(a, extract.CanonOpts{})
 		if err != nil {
